@@ -167,6 +167,15 @@ def _cast_cases(akind):
                     continue
                 for cast in ((True, False) if sp in ("put", "putF") else (None,)):
                     yield {"a": s, "ix": [ix], "sp": sp, "v": vname, "cast": cast, "part": "cast"}
+    # a full-shape N-d boolean mask (the path of fillna / setna) with a scalar value, on a 2-D array: same widening rules, same untouched cells
+    s2 = D.spec(["x", "y"], [[30, 10], ["b", "a", "c"]], ["i", "O"], vk=akind, attrs={"units": "m"})
+    for vname in CAST_VALUES:
+        if vname.endswith("arr"):
+            continue
+        for sp in ("put", "putF", "setitem"):
+            for cast in ((True, False) if sp in ("put", "putF") else (None,)):
+                for mk in ("some", "none", "all"):
+                    yield {"a": s2, "sp": sp, "v": vname, "cast": cast, "part": "cast", "ndmask": mk}
     # assignments that FAIL (position out of range, absent label, wrong number of values) with cast=True: nothing is assigned, so the array -
     # dtype included - stays what it was ("leaves every other cell ... untouched")
     for vname in ("float", "str", "floatarr"):
@@ -357,12 +366,21 @@ def _check_cast(case):
     v = CAST_VALUES[case["v"]]
     vkind = CAST_KIND[case["v"]]
     akind = "i" if ra.vals.dtype.kind == "u" else ra.vals.dtype.kind
-    perdim = R.resolve_all(ra, s["kinds"], case["ix"])[0]
-    pos = perdim[0][1] if perdim[0][0] == "keep" else [perdim[0][1]]
     sp, cast = case["sp"], case["cast"]
-    ixd = spell.dec_tuple(case["ix"], s["kinds"])
+    if case.get("ndmask"):
+        mask = {"some": np.array([[True, False, False], [False, True, True]]), "none": np.zeros((2, 3), bool), "all": np.ones((2, 3), bool)}[case["ndmask"]]
+        pos = [tuple(int(i) for i in p) for p in np.argwhere(mask)]
+        ixd = (mask,)
+        allpos = [tuple(int(i) for i in p) for p in np.argwhere(np.ones((2, 3), bool))]
+    else:
+        perdim = R.resolve_all(ra, s["kinds"], case["ix"])[0]
+        pos = perdim[0][1] if perdim[0][0] == "keep" else [perdim[0][1]]
+        ixd = spell.dec_tuple(case["ix"], s["kinds"])
+        allpos = list(range(len(ra.labels[0])))
     val = np.array(v) if isinstance(v, list) else v
-    if sp == "put":
+    if case.get("ndmask") and sp in ("put", "putF"):
+        ret = call(a.put, ixd[0], val, cast=cast, inplace=(sp == "put")); target = a if sp == "put" else ret
+    elif sp == "put":
         ret = call(a.put, ixd, val, cast=cast); target = a
     elif sp == "putF":
         ret = call(a.put, ixd, val, cast=cast, inplace=False); target = ret
@@ -392,8 +410,8 @@ def _check_cast(case):
                 vals[k], p, py(res[p]), akind, cast, res.dtype))
         if isinstance(vals[k], float) and not isinstance(vals[k], bool) and vals[k] == vals[k] and py(res[p]) != vals[k]:
             return bad("float value truncated: {!r} stored as {!r}".format(vals[k], py(res[p])))
-    for p in range(len(ra.labels[0])):
-        if p not in pos and not same_scalar(res[p], ra.vals[p]):
+    for p in allpos:
+        if p not in pos and (not same_scalar(res[p], ra.vals[p]) or isinstance(py(res[p]), str) != isinstance(py(ra.vals[p]), str)):
             return bad("untouched cell {} changed from {!r} to {!r}".format(p, py(ra.vals[p]), py(res[p])))
     return ok("cast-%s<-%s" % (akind, vkind))
 
